@@ -265,28 +265,43 @@ func PrunePathValues(paths []*configapi.PathValue, leaveTopDeletedPaths bool) []
 		return sortedPaths[i].Path < sortedPaths[j].Path
 	})
 
-	prunedPaths := make([]*configapi.PathValue, 0, len(sortedPaths))
-	deletingPrefix := ""
+	// The paths marked as deleted; a path is pruned when it lies beneath one of them at a path element boundary
+	// (sibling names that merely share a textual prefix with a deleted path are not part of its sub-tree)
+	deletedPaths := make(map[string]bool)
 	for _, pv := range sortedPaths {
-		// If this path is marked as deleted and we're already not deleting this subtree, start deleting
-		if pv.Deleted && (len(deletingPrefix) == 0 || !strings.HasPrefix(pv.Path, deletingPrefix)) {
-			deletingPrefix = pv.Path
-
-			// If we're asked to leave behind the top deleted node of a sub-tree, add it here
-			if leaveTopDeletedPaths {
-				prunedPaths = append(prunedPaths, pv)
-			}
+		if pv.Deleted {
+			deletedPaths[pv.Path] = true
 		}
+	}
 
-		// If we're not currently deleting or if the node is not part of the sub-tree, add it and cancel deletion
-		// since we have left the sub-tree.
-		if len(deletingPrefix) == 0 || !strings.HasPrefix(pv.Path, deletingPrefix) {
+	prunedPaths := make([]*configapi.PathValue, 0, len(sortedPaths))
+	for _, pv := range sortedPaths {
+		if isBelowDeletedPath(pv.Path, deletedPaths) {
+			continue
+		}
+		// If we're asked to leave behind the top deleted node of a sub-tree, add it here
+		if !pv.Deleted || leaveTopDeletedPaths {
 			prunedPaths = append(prunedPaths, pv)
-			deletingPrefix = ""
 		}
 	}
 
 	return prunedPaths
+}
+
+// isBelowDeletedPath tells whether any proper ancestor of the path (taken at path element boundaries) is marked as deleted
+func isBelowDeletedPath(path string, deletedPaths map[string]bool) bool {
+	if len(deletedPaths) == 0 {
+		return false
+	}
+	if path != "/" && (deletedPaths["/"] || deletedPaths[""]) {
+		return true
+	}
+	for i := 1; i < len(path); i++ {
+		if (path[i] == '/' || path[i] == '[') && deletedPaths[path[:i]] {
+			return true
+		}
+	}
+	return false
 }
 
 // PrunePathMap produces a copy of the given path values map, with paths marked as deleted and their sub-paths removed.
